@@ -504,12 +504,25 @@ func (c *Ctx) allProofFields(e *Ex, proofs string) bool {
 
 func (c *Ctx) c14Amounts() {
 	R := c.R
+	// Proofs.Amount is the whole-list sum: then Proofs.Amount(X) stands for the sum of elem(X).Amount
+	const listSum = "cashu.(Proofs).Amount"
+	listSumOK := false
+	if f := c.P.Func(listSum); f != nil {
+		o := c.P.OriginsOf(f)
+		listSumOK = true
+		for _, r := range Returns(f) {
+			if o.Of(r.Results[0]).String() != "acc(+; #0; elem(P:"+f.Params[0].Name()+").Amount)" {
+				listSumOK = false
+			}
+		}
+	}
 	if f := c.P.Func("cashu.(TokenV3).Amount"); f != nil {
 		o := c.P.OriginsOf(f)
 		recv := "P:" + f.Params[0].Name()
 		for _, r := range Returns(f) {
 			e := o.Of(r.Results[0])
-			ok := e.K == "acc" && e.S == "+" && len(e.Args) == 2 && isConst(e.Args[0], "0") && e.Args[1].String() == "elem(elem("+recv+".Token).Proofs).Amount"
+			ok := e.K == "acc" && e.S == "+" && len(e.Args) == 2 && isConst(e.Args[0], "0") && (e.Args[1].String() == "elem(elem("+recv+".Token).Proofs).Amount" ||
+				(listSumOK && e.Args[1].String() == listSum+"(elem("+recv+".Token).Proofs)"))
 			R.Check("R2", c.P.FuncKey(f), "V3 amount sums every proof of every entry", c.P.InstrPos(r), ok, "Amount() is the sum over all entries and all proofs", short(e.String(), 200))
 		}
 	} else {
@@ -523,6 +536,9 @@ func (c *Ctx) c14Amounts() {
 			w1 := "elem(cashu.(TokenV4).Proofs(" + recv + ")).Amount"
 			w2 := "elem(elem(" + recv + ".TokenProofs).Proofs).Amount"
 			ok := e.K == "acc" && e.S == "+" && len(e.Args) == 2 && isConst(e.Args[0], "0") && (e.Args[1].String() == w1 || e.Args[1].String() == w2)
+			if !ok && listSumOK && e.String() == listSum+"(cashu.(TokenV4).Proofs("+recv+"))" {
+				ok = true
+			}
 			R.Check("R2", c.P.FuncKey(f), "V4 amount sums every proof", c.P.InstrPos(r), ok, "Amount() is the sum over all proofs of the token", short(e.String(), 200))
 		}
 	} else {
@@ -557,10 +573,14 @@ func (c *Ctx) c14Prefixes() {
 		}}
 		R.Check("R2", v.dec, "decoder tests the same prefix", c.P.Pos(dec.Pos()), do.SuccessCut(prefix), "the decoder accepts only strings that start with "+v.prefix, "a success return is reachable without the prefix test")
 		pad, raw := false, false
-		for _, ci := range Calls(dec) {
+		var decCalls []ssa.CallInstruction
+		for _, g := range c.OpFuncs(dec) {
+			decCalls = append(decCalls, Calls(g)...)
+		}
+		for _, ci := range decCalls {
 			d := c.P.Describe(ci)
 			if d.Name == "encoding/base64.(*Encoding).DecodeString" {
-				src := do.Of(d.Recv).String()
+				src := c.P.OriginsOf(ci.Parent()).Of(d.Recv).String()
 				if strings.Contains(src, "RawURLEncoding") {
 					raw = true
 				} else if strings.Contains(src, "URLEncoding") {
